@@ -5,7 +5,7 @@ from fractions import Fraction
 
 from .. import coq
 from ..enumrng import enumerate_outcomes
-from ..trees import all_specs, build_tree, make_data, random_spec, rational_values, spec_nodes, node_points, spec_points
+from ..trees import all_specs, build_tree, make_data, random_spec, rational_values, scramble, spec_nodes, node_points, spec_points, tree_spec
 
 
 def coq_tree(node):
@@ -49,7 +49,20 @@ def _one_tree(args):
     tree = build_tree(spec, data)
     dist, npaths, _ = enumerate_outcomes(lambda r: tuple(d.idx for d in RootPermutationDistribution.sample(tree, r)))
     log_pdf = float(RootPermutationDistribution.log_pdf(tree))
-    return spec, dist, npaths, log_pdf, compatible_orders(spec)
+    # the same tree after the edits a sampler / the run loop applies (relabel_nodes every iteration, prune + graft, dictionary
+    # form): node ids and child order are then not those of a bottom-up build, the compatible orders are unchanged
+    edited = []
+    nn = len(spec_nodes(spec))
+    for history in ([("relabel",)], [("regraft", k) for k in range(nn)] + [("relabel",)], [("regraft", 0), ("dict",)], [("relabel",), ("regraft", 1), ("regraft", 0)]):
+        t2 = scramble(build_tree(spec, data), history)
+        if tree_spec(t2) != spec:
+            edited.append((history, None, None))
+            continue
+        d2 = None
+        if npaths <= 1500 and history[-1] == ("relabel",):
+            d2, _, _ = enumerate_outcomes(lambda r: tuple(d.idx for d in RootPermutationDistribution.sample(t2, r)))
+        edited.append((history, float(RootPermutationDistribution.log_pdf(t2)), d2))
+    return spec, dist, npaths, log_pdf, compatible_orders(spec), edited
 
 
 def run(ctx):
@@ -77,7 +90,7 @@ def run(ctx):
 
     with ProcessPoolExecutor(max_workers=12) as ex:
         results = list(ex.map(_one_tree, [(spec, vals) for spec in specs], chunksize=8))
-    for spec, dist, npaths, log_pdf, brute in results:
+    for spec, dist, npaths, log_pdf, brute, edited in results:
         nb = len(brute)
         ctx.case(key=spec, nontrivial=nb > 1, sample={"tree": spec, "orders": nb, "paths": npaths, "log_pdf": log_pdf})
         ctx.count("outliers=%d" % len(spec[1]))
@@ -99,6 +112,15 @@ def run(ctx):
                 "log_pdf is %.6f but -log(#compatible orders = %d) is %.6f" % (log_pdf, nb, -math.log(nb)),
                 {"tree": spec, "log_pdf": log_pdf, "n_orders": nb},
             )
+        for history, lp2, d2 in edited:
+            ctx.count("edited_variants")
+            hist = [list(h) for h in history]
+            if lp2 is None:
+                ctx.fail("C09:edited:shape-changed", "prune + graft back / relabel / dictionary round trip changed the tree", {"tree": spec, "history": hist})
+            elif abs(lp2 + math.log(nb)) > 1e-9:
+                ctx.fail("C09:log_pdf:edited:%s" % shape, "after %s log_pdf is %.6f but -log(#compatible orders = %d) is %.6f" % (hist, lp2, nb, -math.log(nb)), {"tree": spec, "history": hist, "log_pdf": lp2, "n_orders": nb})
+            if d2 is not None and (set(d2) != set(brute) or max(abs(p - 1.0 / nb) for p in d2.values()) > 1e-9):
+                ctx.fail("C09:sample:edited:%s" % shape, "after %s the sampled orders are not uniform over the compatible orders" % hist, {"tree": spec, "history": hist})
         cases.append((spec, dist, log_pdf))
     # ---- correspondence: model vs implementation inside Coq
     header = "\n".join([
@@ -149,8 +171,13 @@ def replay(ctx, doc):
         return
     spec = _tup(rp["tree"])
     vals = rational_values(ctx.rng, max(spec_points(spec)) + 1, 1, 3)
-    spec, dist, npaths, log_pdf, brute = _one_tree((spec, vals))
+    spec, dist, npaths, log_pdf, brute, edited = _one_tree((spec, vals))
     nb = len(brute)
+    for history, lp2, d2 in edited:
+        bad2 = lp2 is None or abs(lp2 + math.log(nb)) > 1e-9 or (d2 is not None and (set(d2) != set(brute) or max(abs(p - 1.0 / nb) for p in d2.values()) > 1e-9))
+        ctx.log("edited by %s: log_pdf %s%s" % (history, lp2, "  <-- fails" if bad2 else ""))
+        if bad2:
+            ctx.fail(doc.get("key", "C09:replay"), "replayed tree still fails after the edits %s" % (history,), rp)
     ctx.case(key="replay", nontrivial=True, sample={"tree": spec, "orders": nb, "log_pdf": log_pdf})
     ctx.log("replayed tree %r: %d compatible orders, %d drawn, log_pdf %.6f (expected %.6f)" % (spec, nb, len(dist), log_pdf, -math.log(nb)))
     if set(dist) != set(brute) or max(abs(p - 1.0 / nb) for p in dist.values()) > 1e-9 or abs(log_pdf + math.log(nb)) > 1e-9:
